@@ -12,7 +12,8 @@
       is evaluated first; identical in `all` and `some`;
   K3  empty is false: a length-zero test on the normalised collection dominates
       the iteration and returns the constant false — in both functions;
-  K4  short-circuit: every site that evaluates the predicate per element either
+  K4  in order, short-circuit: the collection is walked front to back with no
+      reversing / skipping / truncating adaptor; every site that evaluates the predicate per element either
       sits under a short-circuiting std consumer or in a closure with a success
       path that evaluates nothing; the fold is seeded with true (all) / false
       (some) and the 'decided' path returns false (all) / true (some);
@@ -232,6 +233,10 @@ def run(ctx):
             colls = find_collection_eval(roles, p, u, 0)
             ctx.check(len(colls) == 1 and not u.per_element(colls[0][0]) and colls[0][1].tags == {"DATA"}, "K2.collection-eval", "%s evaluates an operation operand once, against the outer data (%s)" % (name, cfg),
                       "%d evaluations of operand 0 outside the iteration" % len(colls), where=b.where(), fn=b.key, nontrivial=True)
+            from .c13 import REORDER
+            bad_ad = [callee_path(s.term) for s in u.calls_path(REORDER.pattern)]
+            ctx.check(not bad_ad, "K4.in-order", "%s walks the collection front to back, every element (no reversing / skipping / truncating adaptor) (%s)" % (name, cfg),
+                      "%s applies %s to the collection: the first deciding element is no longer the first in order" % (name, bad_ad), where=b.where(), fn=b.key, nontrivial=True)
             pes = per_element_sites(roles, p, u, 1)
             ctx.check(len(pes) >= 1, "K4.predicate-site", "%s evaluates the predicate per element (%s)" % (name, cfg), "no per-element predicate evaluation", where=b.where(), fn=b.key)
             if not pes or not colls:
